@@ -358,6 +358,11 @@ def freeze_heap(p):
         o.attrs0 = dict(o.attrs)
         o.writes = []
         walk(o)
+    from .interp import _FRAME_SEQ
+
+    # ... and so do the closure variables of the activations that ran so far (the factory's own locals, captured by what it returned)
+    p.ghost["frame_seq_at_freeze"] = _FRAME_SEQ[0]
+    p.ghost.pop("closure_writes", None)
 
 
 def check_frame(c: Contract, I: Interp, p, args):
@@ -367,6 +372,14 @@ def check_frame(c: Contract, I: Interp, p, args):
         allowed.add((o, a) if isinstance(o, str) else (id(o), a))
     oid = f"{c.target}/frame.preexisting_objects_unchanged"
     any_write = False
+    frozen = p.ghost.get("frame_seq_at_freeze")
+    if frozen is not None:
+        for f, name, v0 in p.ghost.get("closure_writes", {}).values():
+            if f.seq > frozen:
+                continue  # an activation of this very call
+            any_write = True
+            v1 = f.locals.get(name, MISSING)
+            p.check(v1 is v0, oid, note=f"closure variable `{name}` of {getattr(f.func, '__name__', '?')} (shared by every later call) " + ("restored" if v1 is v0 else "rebound"))
     for o in list(p.objects):
         if not o.pre:
             continue
